@@ -26,6 +26,7 @@ import (
 func init() { modes["recv"] = modeRecv }
 
 type segConn struct {
+	failW   bool // every Write fails (the read side is unaffected)
 	mu      sync.Mutex
 	cond    *sync.Cond
 	segs    [][]byte // pending segments for Read
@@ -90,6 +91,10 @@ func (c *segConn) Read(p []byte) (int, error) {
 func (c *segConn) Write(p []byte) (int, error) {
 	c.mu.Lock()
 	defer c.mu.Unlock()
+	if c.failW {
+		// only the write direction fails: reads keep blocking until somebody closes the connection
+		return 0, io.ErrShortWrite
+	}
 	for c.holdW && !c.closed {
 		c.blockW++
 		c.cond.Wait()
